@@ -16,7 +16,7 @@ Theorem C02_commit_gate_sound : forall cfg cm c, committee_wf cm -> handle_peer_
     v_phase (c_view c) = Phase_PRECOMMIT_VOTE /\
     c_sigs c = map (fun i => (i, sign_payload c)) (signers cm c) /\
     2 * total_exact cm / 3 + 1 <= power_of cm (signers cm c) /\
-    b_applies b = true.
+    b_applies b = true /\ n_last_root cfg <= v_root (c_view c).
 Proof. exact commit_gate_sound. Qed.
 Print Assumptions C02_commit_gate_sound.
 
@@ -43,6 +43,14 @@ Theorem C02_wrong_target_never_commits : forall cfg cm c,
   handle_peer_block cfg cm c = Reject.
 Proof. exact wrong_target_never_commits. Qed.
 
+(* "voting power in force at the certificate's root height" is a guarantee only for a root height the node's own state vouches for:
+   a certificate naming a root height older than the last one recorded (validators that have since unstaked were +2/3 then) never
+   commits, whatever it is signed by.  (The gate had no such bound before the repair recorded in KNOWN_FINDINGS.txt.) *)
+Theorem C02_historical_committee_never_commits : forall cfg cm c,
+  v_root (c_view c) < n_last_root cfg -> handle_peer_block cfg cm c = Reject.
+Proof. exact historical_committee_never_commits. Qed.
+Print Assumptions C02_historical_committee_never_commits.
+
 (* padding bits neither add power nor change the verdict *)
 Theorem C02_padding_irrelevant : forall cfg cm c bits',
   firstn (length (cm_power cm)) bits' = firstn (length (cm_power cm)) (c_bitmap c) ->
@@ -66,11 +74,12 @@ Theorem C02_commit_gate_complete : forall cfg cm c b rh, committee_wf cm ->
   v_phase (c_view c) = Phase_PRECOMMIT_VOTE -> b_applies b = true ->
   c_sigs c = map (fun i => (i, sign_payload c)) (signers cm c) ->
   2 * total_exact cm / 3 + 1 <= power_of cm (signers cm c) ->
+  n_last_root cfg <= v_root (c_view c) ->
   handle_peer_block cfg cm c = Commit.
 Proof. exact commit_gate_complete. Qed.
 Definition ex_view := mkView 1 1 5 5 0 6.
 Definition ex_cert := mkCert ex_view 11 22 33 true (Some 22) (Some (mkBlock 11 11 5 1 true 100 true)) true
   [true; true; true; false; true; true; false; false]
   [(0%nat, mkPayload ex_view 11 22 33); (1%nat, mkPayload ex_view 11 22 33); (2%nat, mkPayload ex_view 11 22 33)].
-Example ex_commit : handle_peer_block (mkCfg 1 1 5 1000000) (mkCommittee [10; 10; 10; 10] 40 27) ex_cert = Commit.
+Example ex_commit : handle_peer_block (mkCfg 1 1 5 1000000 3) (mkCommittee [10; 10; 10; 10] 40 27) ex_cert = Commit.
 Proof. vm_compute. reflexivity. Qed.
